@@ -19,7 +19,7 @@ pickle frames in the thorough tier):
   must end up complete, and a third call must be a correct hit.
 * (outside the Lean model) torn files that are not prefixes: the caches of two option sets spliced
   (what two overlapping writers with different options leave), zero-filled holes: open finding
-  C21-F2, replayed from the corpus in every run, sampled in the thorough tier.
+  C21-F2 (fixed in 9d600b8), replayed from the corpus and sampled in every run.
 
 Tie to the Lean models (driver `drv_c21`): `CacheState` — every crash / truncation history is
 replayed with the exception CPython's unpickler really raised on those bytes, and the decision
@@ -687,26 +687,75 @@ def torn_case(ctx, bench, B2, kind, k):
 CONVERTED = ("UnpicklingError", "AttributeError", "EOFError", "ImportError", "IndexError", "ModuleNotFoundError")
 
 
+def classify_torn(ctx, bench, B2, plan, budget_s):
+    """Unpickles every torn file of `plan` in a forked child first (some splices keep the C unpickler busy for
+    a minute: those are skipped and counted, in the harness and therefore for the real call too)."""
+    import multiprocessing as mp
+    import time
+    mpc = mp.get_context("fork")
+    out, todo, t_end = [], list(plan), time.time() + budget_s
+
+    def child(items, q):
+        for kind, k in items:
+            q.put((kind, k, "start"))
+            q.put((kind, k, unpickle_class(torn_bytes(bench, B2, kind, k))))
+        q.put(None)
+    while todo and time.time() < t_end:
+        q = mpc.Queue()
+        pr = mpc.Process(target=child, args=(todo, q), daemon=True)
+        pr.start()
+        current = None
+        while True:
+            try:
+                item = q.get(timeout=2.5)
+            except Exception:  # no progress: the child is stuck inside one unpickle
+                ctx.count("torn-slow-unpickle-skipped")
+                if current in todo:
+                    todo = todo[todo.index(current) + 1:]
+                else:
+                    todo = []
+                break
+            if item is None:
+                todo = []
+                break
+            kind, k, cls = item
+            if cls == "start":
+                current = (kind, k)
+            else:
+                out.append((kind, k, cls))
+            if time.time() > t_end:
+                todo = []
+                break
+        pr.terminate()
+        pr.join(timeout=5)
+    return out
+
+
 def torn_stream(ctx, bench, rng, n, scan_only=False):
-    """Random splices/holes; plus — found by unpickling the torn bytes in the harness first — offsets where the
-    unpickler raises a class outside the documented ones, or returns an object."""
+    """Random splices/holes, plus a scan for offsets where the unpickler raises a class outside the documented
+    ones or returns an object (each class once)."""
     B2 = other_cache(bench)
     if B2 is None:
         return
+    quick = ctx.tier == "quick"
     lim = min(len(B2), len(bench.B))
     plan = [(rng.choice(["splice12", "splice21", "hole"]), rng.randrange(1, lim)) for _ in range(0 if scan_only else n)]
-    seen = set()
-    for k in range(1, lim, max(1, lim // 400)):
-        for kind in ("splice12", "splice21"):
-            cls = unpickle_class(torn_bytes(bench, B2, kind, k))
-            if cls not in CONVERTED and (kind, cls) not in seen:
-                seen.add((kind, cls))
-                plan.append((kind, k))
-                ctx.count("torn-unpickler:" + cls)
-    for kind, k in plan:
+    scan = [(kind, k) for k in range(1, lim, max(1, lim // (60 if quick else 400))) for kind in ("splice12", "splice21")]
+    classified = classify_torn(ctx, bench, B2, plan + scan, 4 if quick else 90)
+    seen, todo, planned = set(), [], set(plan)
+    for kind, k, cls in classified:
+        if (kind, k) in planned:
+            planned.discard((kind, k))
+            todo.append((kind, k))
+        elif cls not in CONVERTED and (kind, cls) not in seen:
+            seen.add((kind, cls))
+            todo.append((kind, k))
+            ctx.count("torn-unpickler:" + cls)
+    for kind, k in todo:
         if ctx.time_left() < 5:
             break
-        torn_case(ctx, bench, B2, kind, k)
+        if not torn_case(ctx, bench, B2, kind, k):
+            return
 
 
 def make_benches(ctx, quick):
@@ -816,8 +865,8 @@ def run(ctx):
                         return
         ctx.extra["sampled_offsets_done"] = done
         ctx.extra["every_offset_covered"] = [(not quick) and len(b.B) <= 40000 for b in benches]
-        if not quick:
-            torn_stream(ctx, benches[0], ctx.rng, 150)
+        # outside the Lean model: splices of two caches / holes (finding C21-F2, fixed in 9d600b8)
+        torn_stream(ctx, benches[0], ctx.rng, 10 if quick else 150)
     finally:
         for b in benches:
             b.close()
